@@ -123,155 +123,204 @@ static void pq_build(struct aws_priority_queue *q, enum pq_mode mode) {
         q->backpointers.data = NULL;
     }
 }
-/* one harness per mode */
-#define H3(name) H2(name) void h_##name##_nost(void) { hb_##name(PQ_NOST); }
-#define H2(name) void h_##name##_live(void) { hb_##name(PQ_LIVE); } void h_##name##_plain(void) { hb_##name(PQ_PLAIN); }
+/* One harness per mode: hb_<f>(mode, q) = build, assume requires, call, assert ensures; the reachability canaries differ
+ * per mode and are planted in the harness proper (a canary in a branch that a mode cannot reach would be reported dead). */
+#define Q struct aws_priority_queue q
 
 /* ---------------------------------------------------------------- internal mechanisms */
-static void hb_swap(enum pq_mode m) {
-    struct aws_priority_queue q; size_t a = nondet_size_t(), b = nondet_size_t();
-    PQ_GHOSTS(); pq_build(&q, m);
-    PQ_C_swap(PQ_ASSUME, PQ_SKIP, (&q), a, b)
-    s_swap(&q, a, b);
-    PQ_C_swap(PQ_SKIP, PQ_ASSERT, (&q), a, b)
-    if (g_ki == a) CANARY("cursor was on a"); else if (g_ki == b) CANARY("cursor was on b"); else CANARY("cursor elsewhere");
+static size_t hb_a, hb_b; /* arguments chosen by the body, for the canaries */
+static void hb_swap(enum pq_mode m, struct aws_priority_queue *q) {
+    size_t a = nondet_size_t(), b = nondet_size_t();
+    PQ_GHOSTS(); pq_build(q, m);
+    PQ_C_swap(PQ_ASSUME, PQ_SKIP, q, a, b)
+    s_swap(q, a, b);
+    PQ_C_swap(PQ_SKIP, PQ_ASSERT, q, a, b)
+    hb_a = a; hb_b = b;
 }
-H2(swap)
-static void hb_sift_down(enum pq_mode m) {
-    struct aws_priority_queue q; size_t root = nondet_size_t(); bool r;
-    PQ_GHOSTS(); pq_build(&q, m);
-    PQ_C_sift_down(PQ_ASSUME, PQ_SKIP, (&q), root, r)
-    r = s_sift_down(&q, root);
-    PQ_C_sift_down(PQ_SKIP, PQ_ASSERT, (&q), root, r)
-    if (!r) CANARY("stayed"); else if (root == 0 && g_ki == 0 && g_pos > 2) CANARY("moved from the root to the last level"); else CANARY("moved");
+#define CAN_SWAP if (g_ki == hb_a) CANARY("cursor was on a"); else if (g_ki == hb_b) CANARY("cursor was on b"); else CANARY("cursor elsewhere");
+void h_swap_live(void) { Q; hb_swap(PQ_LIVE, &q); CAN_SWAP if (g_h_inq && g_h_idx == hb_a) CANARY("ghost handle was on a"); }
+void h_swap_plain(void) { Q; hb_swap(PQ_PLAIN, &q); CAN_SWAP }
+
+static bool hb_sift_down(enum pq_mode m, struct aws_priority_queue *q) {
+    size_t root = nondet_size_t(); bool r;
+    PQ_GHOSTS(); pq_build(q, m);
+    PQ_C_sift_down(PQ_ASSUME, PQ_SKIP, q, root, r)
+    r = s_sift_down(q, root);
+    PQ_C_sift_down(PQ_SKIP, PQ_ASSERT, q, root, r)
+    hb_a = root;
+    return r;
 }
-H2(sift_down)
-static void hb_sift_up(enum pq_mode m) {
-    struct aws_priority_queue q; size_t index = nondet_size_t(); bool r;
-    PQ_GHOSTS(); pq_build(&q, m);
-    PQ_C_sift_up(PQ_ASSUME, PQ_SKIP, (&q), index, r)
-    r = s_sift_up(&q, index);
-    PQ_C_sift_up(PQ_SKIP, PQ_ASSERT, (&q), index, r)
-    if (!r) CANARY("stayed"); else if (index == PQN - 1 && g_ki == index && g_pos == 0) CANARY("moved from the last slot to the root"); else CANARY("moved");
+#if VERIF_PQ_N >= 7
+#    define CAN_DEEP_DOWN else if (hb_a == 0 && g_ki == 0 && g_pos > 2) CANARY("moved from the root to the last level");
+#    define CAN_DEEP_UP else if (hb_a == PQN - 1 && g_ki == hb_a && g_pos == 0) CANARY("moved from the last slot to the root");
+#else
+#    define CAN_DEEP_DOWN
+#    define CAN_DEEP_UP
+#endif
+#define CAN_SIFT_DOWN if (!r) CANARY("stayed"); CAN_DEEP_DOWN else CANARY("moved");
+void h_sift_down_live(void) { Q; bool r = hb_sift_down(PQ_LIVE, &q); CAN_SIFT_DOWN }
+void h_sift_down_plain(void) { Q; bool r = hb_sift_down(PQ_PLAIN, &q); CAN_SIFT_DOWN }
+
+static bool hb_sift_up(enum pq_mode m, struct aws_priority_queue *q) {
+    size_t index = nondet_size_t(); bool r;
+    PQ_GHOSTS(); pq_build(q, m);
+    PQ_C_sift_up(PQ_ASSUME, PQ_SKIP, q, index, r)
+    r = s_sift_up(q, index);
+    PQ_C_sift_up(PQ_SKIP, PQ_ASSERT, q, index, r)
+    hb_a = index;
+    return r;
 }
-H2(sift_up)
-static void hb_sift_either(enum pq_mode m) {
-    struct aws_priority_queue q; size_t index = nondet_size_t();
-    PQ_GHOSTS(); pq_build(&q, m);
-    PQ_C_sift_either(PQ_ASSUME, PQ_SKIP, (&q), index)
-    s_sift_either(&q, index);
-    PQ_C_sift_either(PQ_SKIP, PQ_ASSERT, (&q), index)
-    if (index == 0) CANARY("root"); else if (g_ki == index && g_pos < index) CANARY("inner, went up");
-    else if (g_ki == index && g_pos > index) CANARY("inner, went down"); else CANARY("inner");
+#define CAN_SIFT_UP if (!r) CANARY("stayed"); CAN_DEEP_UP else CANARY("moved");
+void h_sift_up_live(void) { Q; bool r = hb_sift_up(PQ_LIVE, &q); CAN_SIFT_UP }
+void h_sift_up_plain(void) { Q; bool r = hb_sift_up(PQ_PLAIN, &q); CAN_SIFT_UP }
+
+static void hb_sift_either(enum pq_mode m, struct aws_priority_queue *q) {
+    size_t index = nondet_size_t();
+    PQ_GHOSTS(); pq_build(q, m);
+    PQ_C_sift_either(PQ_ASSUME, PQ_SKIP, q, index)
+    s_sift_either(q, index);
+    PQ_C_sift_either(PQ_SKIP, PQ_ASSERT, q, index)
+    hb_a = index;
 }
-H2(sift_either)
-static void hb_remove_node(enum pq_mode m) {
-    struct aws_priority_queue q; size_t index = nondet_size_t(); uint8_t out[ISZ]; int r;
-    PQ_GHOSTS(); pq_build(&q, m);
-    PQ_C_remove_node(PQ_ASSUME, PQ_SKIP, (&q), out, index, r)
-    r = s_remove_node(&q, out, index);
-    PQ_C_remove_node(PQ_SKIP, PQ_ASSERT, (&q), out, index, r)
-    if (q.container.length == 0) CANARY("removed the only element"); else if (index == q.container.length) CANARY("removed the last slot");
-    else CANARY("removed an inner slot");
+#define CAN_SIFT_EITHER if (hb_a == 0) CANARY("root"); else if (g_ki == hb_a && g_pos < hb_a) CANARY("inner, went up"); \
+    else if (g_ki == hb_a && g_pos > hb_a) CANARY("inner, went down"); else CANARY("inner");
+void h_sift_either_live(void) { Q; hb_sift_either(PQ_LIVE, &q); CAN_SIFT_EITHER }
+void h_sift_either_plain(void) { Q; hb_sift_either(PQ_PLAIN, &q); CAN_SIFT_EITHER }
+
+static int hb_remove_node(enum pq_mode m, struct aws_priority_queue *q) {
+    size_t index = nondet_size_t(); uint8_t out[ISZ]; int r;
+    PQ_GHOSTS(); pq_build(q, m);
+    PQ_C_remove_node(PQ_ASSUME, PQ_SKIP, q, out, index, r)
+    r = s_remove_node(q, out, index);
+    PQ_C_remove_node(PQ_SKIP, PQ_ASSERT, q, out, index, r)
+    hb_a = index;
+    return r;
 }
-H2(remove_node)
+#define CAN_REMOVE_NODE if (q.container.length == 0) CANARY("removed the only element"); \
+    else if (hb_a == q.container.length) CANARY("removed the last slot"); else CANARY("removed an inner slot");
+void h_remove_node_live(void) { Q; hb_remove_node(PQ_LIVE, &q); CAN_REMOVE_NODE }
+void h_remove_node_plain(void) { Q; hb_remove_node(PQ_PLAIN, &q); CAN_REMOVE_NODE }
 
 /* ---------------------------------------------------------------- public operations */
-static void hb_pop(enum pq_mode m) {
-    struct aws_priority_queue q; uint8_t out[ISZ]; int r;
-    PQ_GHOSTS(); pq_build(&q, m);
-    PQ_C_pop(PQ_ASSUME, PQ_SKIP, (&q), out, r)
-    r = aws_priority_queue_pop(&q, out);
-    PQ_C_pop(PQ_SKIP, PQ_ASSERT, (&q), out, r)
-    if (r != 0) CANARY("empty queue refused"); else if (m == PQ_NOST) CANARY("unreachable: a queue without storage is empty");
-    else if (q.container.length == PQN - 1) CANARY("popped from a full tree");
-    else if (g_h_inq && g_h_idx == 0) CANARY("popped the ghost handle's element"); else CANARY("popped");
+static int hb_pop(enum pq_mode m, struct aws_priority_queue *q) {
+    uint8_t out[ISZ]; int r;
+    PQ_GHOSTS(); pq_build(q, m);
+    PQ_C_pop(PQ_ASSUME, PQ_SKIP, q, out, r)
+    r = aws_priority_queue_pop(q, out);
+    PQ_C_pop(PQ_SKIP, PQ_ASSERT, q, out, r)
+    return r;
 }
-H3(pop)
-static void hb_remove(enum pq_mode m) {
-    struct aws_priority_queue q; uint8_t out[ISZ]; size_t h = nondet_size_t(); int r;
-    PQ_GHOSTS(); pq_build(&q, m);
+void h_pop_live(void) { Q; int r = hb_pop(PQ_LIVE, &q);
+    if (r != 0) CANARY("empty queue refused"); else if (g0_len == PQN) CANARY("popped from a full tree");
+    else if (g_h_inq && g_h_idx == 0) CANARY("popped the ghost handle's element"); else CANARY("popped"); }
+void h_pop_plain(void) { Q; int r = hb_pop(PQ_PLAIN, &q);
+    if (r != 0) CANARY("empty queue refused"); else if (g0_len == PQN) CANARY("popped from a full tree"); else CANARY("popped"); }
+void h_pop_nost(void) { Q; int r = hb_pop(PQ_NOST, &q); if (r != 0) CANARY("empty queue refused"); }
+
+static int hb_remove(enum pq_mode m, struct aws_priority_queue *q) {
+    uint8_t out[ISZ]; size_t h = nondet_size_t(); int r;
+    PQ_GHOSTS(); pq_build(q, m);
     __CPROVER_assume(h < PQK);
-    PQ_C_remove(PQ_ASSUME, PQ_SKIP, (&q), out, (&g_nodes[h]), r)
-    r = aws_priority_queue_remove(&q, out, &g_nodes[h]);
-    PQ_C_remove(PQ_SKIP, PQ_ASSERT, (&q), out, (&g_nodes[h]), r)
-    if (r == 0) { if (h == g_h) CANARY("removed the ghost handle's element"); else CANARY("removed another element"); }
-    else if (q.backpointers.data == NULL) CANARY("refused: queue never had handles");
-    else if (g0_idx == SIZE_MAX) CANARY("refused: stale handle"); else CANARY("refused: index out of range");
+    PQ_C_remove(PQ_ASSUME, PQ_SKIP, q, out, (&g_nodes[h]), r)
+    r = aws_priority_queue_remove(q, out, &g_nodes[h]);
+    PQ_C_remove(PQ_SKIP, PQ_ASSERT, q, out, (&g_nodes[h]), r)
+    hb_a = h;
+    return r;
 }
-H2(remove)
-static void hb_top(enum pq_mode m) {
-    struct aws_priority_queue q; void *p; int r;
-    PQ_GHOSTS(); pq_build(&q, m);
-    PQ_C_top(PQ_ASSUME, PQ_SKIP, (&q), (&p), r)
-    r = aws_priority_queue_top(&q, &p);
-    PQ_C_top(PQ_SKIP, PQ_ASSERT, (&q), (&p), r)
-    if (r == 0) CANARY("top"); else CANARY("empty queue refused");
+void h_remove_live(void) { Q; int r = hb_remove(PQ_LIVE, &q);
+    if (r == 0) { if (hb_a == g_h) CANARY("removed the ghost handle's element"); else CANARY("removed another element"); }
+    else if (g0_idx == SIZE_MAX) CANARY("refused: stale handle"); else CANARY("refused: index out of range"); }
+void h_remove_plain(void) { Q; int r = hb_remove(PQ_PLAIN, &q); if (r != 0) CANARY("refused: queue never had handles"); }
+
+static int hb_top(enum pq_mode m, struct aws_priority_queue *q) {
+    void *p; int r;
+    PQ_GHOSTS(); pq_build(q, m);
+    PQ_C_top(PQ_ASSUME, PQ_SKIP, q, (&p), r)
+    r = aws_priority_queue_top(q, &p);
+    PQ_C_top(PQ_SKIP, PQ_ASSERT, q, (&p), r)
+    return r;
 }
-H3(top)
-static void hb_push_ref(enum pq_mode m) {
-    struct aws_priority_queue q; uint8_t in[ISZ]; size_t h = nondet_size_t(); int r;
-    PQ_GHOSTS(); pq_build(&q, m);
+void h_top_live(void) { Q; int r = hb_top(PQ_LIVE, &q); if (r == 0) CANARY("top"); else CANARY("empty queue refused"); }
+void h_top_plain(void) { Q; int r = hb_top(PQ_PLAIN, &q); if (r == 0) CANARY("top"); else CANARY("empty queue refused"); }
+void h_top_nost(void) { Q; int r = hb_top(PQ_NOST, &q); if (r != 0) CANARY("empty queue refused"); }
+
+static struct aws_priority_queue_node *hb_bp;
+static int hb_push_ref(enum pq_mode m, struct aws_priority_queue *q) {
+    uint8_t in[ISZ]; size_t h = nondet_size_t(); int r;
+    PQ_GHOSTS(); pq_build(q, m);
     struct aws_priority_queue_node *bp = h < PQK ? &g_nodes[h] : NULL;
-    PQ_C_push(PQ_ASSUME, PQ_SKIP, (&q), in, bp, r)
-    r = aws_priority_queue_push_ref(&q, in, bp);
-    PQ_C_push(PQ_SKIP, PQ_ASSERT, (&q), in, bp, r)
-    if (r == 0) {
-        if (bp && g0_len > 0) CANARY("handle, non-empty queue"); else if (bp) CANARY("handle, empty queue");
-        else if (PQ_FULL0) CANARY("no handle, storage grew"); else CANARY("no handle");
-    } else if (PQ_FULL0) CANARY("full static queue refused"); else CANARY("static queue refused a handle");
+    PQ_C_push(PQ_ASSUME, PQ_SKIP, q, in, bp, r)
+    r = aws_priority_queue_push_ref(q, in, bp);
+    PQ_C_push(PQ_SKIP, PQ_ASSERT, q, in, bp, r)
+    hb_bp = bp;
+    return r;
 }
-H3(push_ref)
-static void hb_push(enum pq_mode m) {
-    struct aws_priority_queue q; uint8_t in[ISZ]; int r;
-    PQ_GHOSTS(); pq_build(&q, m);
-    PQ_C_push(PQ_ASSUME, PQ_SKIP, (&q), in, PQ_NO_HANDLE, r)
-    r = aws_priority_queue_push(&q, in);
-    PQ_C_push(PQ_SKIP, PQ_ASSERT, (&q), in, PQ_NO_HANDLE, r)
-    if (r != 0) CANARY("full static queue refused"); else if (PQ_FULL0) CANARY("pushed, storage grew"); else CANARY("pushed");
+void h_push_ref_live(void) { Q; int r = hb_push_ref(PQ_LIVE, &q);
+    if (r != 0) return;
+    if (hb_bp && PQ_FULL0) CANARY("handle, storage grew"); else if (hb_bp && g_ki == g0_len && g_pos == 0 && g0_len > 2) CANARY("handle, pushed element went to the root");
+    else if (hb_bp) CANARY("handle"); else CANARY("no handle, handle array live"); }
+void h_push_ref_plain(void) { Q; int r = hb_push_ref(PQ_PLAIN, &q);
+    if (r == 0) { if (hb_bp && g0_len > 0) CANARY("first handle arrives in a non-empty queue"); else if (hb_bp) CANARY("first handle, empty queue");
+                  else if (PQ_FULL0) CANARY("no handle, storage grew"); else CANARY("no handle"); }
+    else if (PQ_FULL0) CANARY("full static queue refused"); else CANARY("static queue refused a handle"); }
+void h_push_ref_nost(void) { Q; int r = hb_push_ref(PQ_NOST, &q);
+    if (r == 0) { if (hb_bp) CANARY("first element with handle"); else CANARY("first element"); } }
+
+static int hb_push(enum pq_mode m, struct aws_priority_queue *q) {
+    uint8_t in[ISZ]; int r;
+    PQ_GHOSTS(); pq_build(q, m);
+    PQ_C_push(PQ_ASSUME, PQ_SKIP, q, in, PQ_NO_HANDLE, r)
+    r = aws_priority_queue_push(q, in);
+    PQ_C_push(PQ_SKIP, PQ_ASSERT, q, in, PQ_NO_HANDLE, r)
+    return r;
 }
-H3(push)
-static void hb_clear(enum pq_mode m) {
-    struct aws_priority_queue q;
-    PQ_GHOSTS(); pq_build(&q, m);
-    PQ_C_clear(PQ_ASSUME, PQ_SKIP, (&q))
-    aws_priority_queue_clear(&q);
-    PQ_C_clear(PQ_SKIP, PQ_ASSERT, (&q))
-    if (g_h_inq) CANARY("ghost handle invalidated"); else CANARY("ghost handle outside");
+void h_push_live(void) { Q; int r = hb_push(PQ_LIVE, &q); if (r == 0) { if (PQ_FULL0) CANARY("pushed, storage grew"); else CANARY("pushed"); } }
+void h_push_plain(void) { Q; int r = hb_push(PQ_PLAIN, &q);
+    if (r != 0) CANARY("full static queue refused"); else if (PQ_FULL0) CANARY("pushed, storage grew"); else CANARY("pushed"); }
+void h_push_nost(void) { Q; int r = hb_push(PQ_NOST, &q); if (r == 0) CANARY("first element"); }
+
+static void hb_clear(enum pq_mode m, struct aws_priority_queue *q) {
+    PQ_GHOSTS(); pq_build(q, m);
+    PQ_C_clear(PQ_ASSUME, PQ_SKIP, q)
+    aws_priority_queue_clear(q);
+    PQ_C_clear(PQ_SKIP, PQ_ASSERT, q)
 }
-H3(clear)
-static void hb_size(enum pq_mode m) {
-    struct aws_priority_queue q; size_t n;
-    PQ_GHOSTS(); pq_build(&q, m);
-    PQ_C_size(PQ_ASSUME, PQ_SKIP, (&q), n)
-    n = aws_priority_queue_size(&q);
-    PQ_C_size(PQ_SKIP, PQ_ASSERT, (&q), n)
-    if (n == 0) CANARY("empty"); else CANARY("non-empty");
+void h_clear_live(void) { Q; hb_clear(PQ_LIVE, &q); if (g_h_inq) CANARY("ghost handle invalidated"); else CANARY("ghost handle outside"); }
+void h_clear_plain(void) { Q; hb_clear(PQ_PLAIN, &q); if (g0_len > 0) CANARY("cleared"); else CANARY("was empty"); }
+void h_clear_nost(void) { Q; hb_clear(PQ_NOST, &q); CANARY("returned"); }
+
+static size_t hb_size(enum pq_mode m, struct aws_priority_queue *q) {
+    size_t n;
+    PQ_GHOSTS(); pq_build(q, m);
+    PQ_C_size(PQ_ASSUME, PQ_SKIP, q, n)
+    n = aws_priority_queue_size(q);
+    PQ_C_size(PQ_SKIP, PQ_ASSERT, q, n)
+    return n;
 }
-static void hb_capacity(enum pq_mode m) {
-    struct aws_priority_queue q; size_t n;
-    PQ_GHOSTS(); pq_build(&q, m);
-    PQ_C_capacity(PQ_ASSUME, PQ_SKIP, (&q), n)
-    n = aws_priority_queue_capacity(&q);
-    PQ_C_capacity(PQ_SKIP, PQ_ASSERT, (&q), n)
-    if (n == 0) CANARY("no storage"); else CANARY("storage");
+static size_t hb_capacity(enum pq_mode m, struct aws_priority_queue *q) {
+    size_t n;
+    PQ_GHOSTS(); pq_build(q, m);
+    PQ_C_capacity(PQ_ASSUME, PQ_SKIP, q, n)
+    n = aws_priority_queue_capacity(q);
+    PQ_C_capacity(PQ_SKIP, PQ_ASSERT, q, n)
+    return n;
 }
-/* the observers are cheap: all three modes in one harness (three calls) */
-void h_observers(void) {
-    enum pq_mode m = nondet_bool() ? PQ_LIVE : (nondet_bool() ? PQ_PLAIN : PQ_NOST);
-    if (m == PQ_LIVE) { hb_size(PQ_LIVE); hb_capacity(PQ_LIVE); }
-    else if (m == PQ_PLAIN) { hb_size(PQ_PLAIN); hb_capacity(PQ_PLAIN); }
-    else { hb_size(PQ_NOST); hb_capacity(PQ_NOST); }
+void h_size_live(void) { Q; size_t n = hb_size(PQ_LIVE, &q); if (n == 0) CANARY("empty"); else CANARY("non-empty"); }
+void h_size_plain(void) { Q; size_t n = hb_size(PQ_PLAIN, &q); if (n == 0) CANARY("empty"); else CANARY("non-empty"); }
+void h_size_nost(void) { Q; size_t n = hb_size(PQ_NOST, &q); if (n == 0) CANARY("empty"); }
+void h_capacity_live(void) { Q; size_t n = hb_capacity(PQ_LIVE, &q); if (n > 0) CANARY("storage"); }
+void h_capacity_plain(void) { Q; size_t n = hb_capacity(PQ_PLAIN, &q); if (n > 0) CANARY("storage"); }
+void h_capacity_nost(void) { Q; size_t n = hb_capacity(PQ_NOST, &q); if (n == 0) CANARY("no storage"); }
+
+static void hb_clean_up(enum pq_mode m, struct aws_priority_queue *q) {
+    PQ_GHOSTS(); pq_build(q, m);
+    PQ_C_clean_up(PQ_ASSUME, PQ_SKIP, q)
+    aws_priority_queue_clean_up(q);
+    PQ_C_clean_up(PQ_SKIP, PQ_ASSERT, q)
 }
-static void hb_clean_up(enum pq_mode m) {
-    struct aws_priority_queue q;
-    PQ_GHOSTS(); pq_build(&q, m);
-    PQ_C_clean_up(PQ_ASSUME, PQ_SKIP, (&q))
-    aws_priority_queue_clean_up(&q);
-    PQ_C_clean_up(PQ_SKIP, PQ_ASSERT, (&q))
-    CANARY("returned");
-}
-H3(clean_up)
+void h_clean_up_live(void) { Q; hb_clean_up(PQ_LIVE, &q); CANARY("returned"); }
+void h_clean_up_plain(void) { Q; hb_clean_up(PQ_PLAIN, &q); if (g0_alloc) CANARY("dynamic"); else CANARY("static"); }
+void h_clean_up_nost(void) { Q; hb_clean_up(PQ_NOST, &q); CANARY("returned"); }
 
 /* ---------------------------------------------------------------- loop-free, any size (mode proof: DFCC allocates the parameters) */
 void h_node_init(void) {
